@@ -316,10 +316,19 @@ public:
     if (!P.median && equalScheme) {
       double mean = (d.Expectation(hi) - d.Expectation(lo)) / M, dm = 0, sc = 0;
       for (size_t i = 0; i < n; ++i) { dm += probs[i] * cats[i]; sc += probs[i] * std::abs(cats[i]); }
-      num("mean", fam, std::abs(dm - mean), 1e-6 * (sc + std::abs(mean)) + 1e-9, who + ": discrete mean " + fmtd(dm) + " vs parent mean over the domain " + fmtd(mean) + " (n=" + std::to_string(n) + ")");
+      // a class whose raw mean (difference of partial expectations / nominal class mass) left its interval is given the interval's
+      // midpoint by the library: the telescoping sum that makes the discrete mean exact is then broken (named trigger of a known finding)
+      bool midFallback = false;
+      for (size_t i = 0; i < n; ++i) if (cats[i] == (bounds[i] + bounds[i + 1]) / 2.) midFallback = true;
+      num("mean", midFallback ? fam + ":class-at-midpoint-fallback" : fam, std::abs(dm - mean), 1e-6 * (sc + std::abs(mean)) + 1e-9, who + ": discrete mean " + fmtd(dm) + " vs parent mean over the domain " + fmtd(mean) + " (n=" + std::to_string(n) + ", domain [" + fmtd(lo) + "," + fmtd(hi) + "] of mass " + fmtd(M) + ", " + paramStr(d) + ")");
     }
   }
 
+  static std::string paramStr(const DD& d) {
+    std::string r; const bpp::ParameterList& pl = d.getParameters();
+    for (size_t i = 0; i < pl.size(); ++i) r += (i ? " " : "") + pl[i].getName() + "=" + fmtd(pl[i].getValue());
+    return r;
+  }
   void checkAll(long order) { for (size_t i = 0; i < parties.size(); ++i) checkParty(i, order + static_cast<long>(i)); }
 
   // ------------------------------------------------------------ parent functions: monotone / inverse / derivative relation
